@@ -1,4 +1,426 @@
-import CV.AE
+/-
+C16 — anti-entropy makes the catalog converge to the agent's local state.
+Property theorems only; the model is CV/AE.lean, helper lemmas live in CV/Proofs/AE*.lean.
+
+Standing well-formedness (`WF`): what the agent and the servers themselves maintain —
+a registered check is bound to a registered service (`addCheckLocked`, service removed with its
+checks), the catalog holds no check of a service it does not hold (`ensureCheckTxn`,
+`deleteServiceTxn`), no empty ids. All theorems hold for every map-iteration order (`ord`).
+-/
+import CV.Proofs.AEFail
+set_option linter.unusedVariables false
 namespace CV.AE
-theorem placeholder_c16 : True := trivial
+open AMap
+
+def WF (l : Local) (c : Cat) : Prop := LocalWF l ∧ CatWF c ∧ NoEmptyKey l c
+
+/-! ## 1. convergence of a clean full sync -/
+
+/-- What "the catalog equals the local registrations" means after a sync that returned `r`,
+    started from local state `l`: no error, node info in sync, every local record registered and
+    in sync (nothing pending deletion, no placeholder), the catalog holds exactly the registered
+    services and — up to the server-side copy of the service name/tags — exactly the registered
+    checks (the `consul` service / serf check are left alone when not registered locally). -/
+def Converged (cfg : Cfg) (l : Local) (r : St) : Prop :=
+  r.ok = true ∧ r.l.nodeInSync = true ∧ r.c.node = some cfg.nodeVal ∧
+  (∀ id, Done (r.l.svcs.get? id)) ∧ (∀ k, Done (r.l.chks.get? k)) ∧
+  (∀ id, ¬ KeptSvc l id → r.c.svcs.get? id = liveSvc r.l id) ∧
+  (∀ k, ¬ KeptChk l k → (r.c.chks.get? k).map ChkDef.core = (liveChk r.l k).map ChkDef.core)
+
+/- Full-strength statement (FALSE for the code as it is, see the counterexample below):
+     theorem clean_full_sync_converges : AllOk f → WF l c → Converged cfg l (syncFull cfg ord f l c)
+   `deleteService` drops the pending removal of every locally deleted check that is bound
+   *locally* to the deregistered service, trusting the server-side cascade; when the catalog's
+   copy of that check has been re-bound to another service (drift) it survives. -/
+
+/-- Convergence, for all local states, catalogs and iteration orders, under the explicit
+    hypothesis that no check pending removal is bound elsewhere in the catalog. -/
+theorem clean_full_sync_converges_partial (cfg : Cfg) (ord : Order) (f : Faults) (l : Local) (c : Cat)
+    (hf : AllOk f) (hw : WF l c) (hnr : NoRebound l c) :
+    Converged cfg l (syncFull cfg ord f l c) := by
+  obtain ⟨hrs, hrc, hno, hso, hco⟩ := hf
+  obtain ⟨hl, hc, hn⟩ := hw
+  have hcov : ∀ l', Covers f l' (fun _ => False) (fun _ => False) :=
+    fun l' => ⟨fun id h => (by rw [hso id] at h; cases h), fun k h => (by rw [hco k] at h; cases h),
+               fun k d _ h => (by rw [hso d.sid] at h; cases h)⟩
+  have g1 : GInv True (fun _ => False) (fun _ => False) (KeptSvc l) (KeptChk l) (updateSyncState cfg l c) c :=
+    uss_GInv cfg l c hl hc hn (fun _ => hnr)
+  unfold syncFull
+  rw [hrs, hrc]; simp only [Bool.and_self, if_true]
+  -- the two loops from a state with node info in sync
+  have rest : ∀ s : St, GInv True (fun _ => False) (fun _ => False) (KeptSvc l) (KeptChk l) s.l s.c →
+      NodeOk cfg s → s.ok = true → Converged cfg l (syncRest cfg ord f s) := by
+    intro s g hnode hok
+    obtain ⟨d1, d2, d3, d4⟩ := syncRest_clean cfg ord f hso hco s g hnode (hcov s.l)
+    have g2 : GInv True (fun _ => False) (fun _ => False) (KeptSvc l) (KeptChk l) (syncRest cfg ord f s).l (syncRest cfg ord f s).c := by
+      unfold syncRest
+      obtain ⟨ga, b1, b2⟩ := svcFold_GInv cfg f s.l (hcov s.l) (visit ord.svcs s.l.svcs.keys) s g (fun _ => rfl) (fun _ => rfl)
+      exact (chkFold_GInv cfg f s.l (hcov s.l) _ _ ga b1 b2).1
+    refine ⟨by rw [d3]; exact hok, d4.1, d4.2, d1, d2, ?_, ?_⟩
+    · intro id hk
+      cases he : (syncRest cfg ord f s).l.svcs.get? id with
+      | none =>
+        rcases g2.tgt.1 id he with h | h
+        · simp [liveSvc, he, h]
+        · exact absurd h hk
+      | some e =>
+        obtain ⟨q1, q2⟩ := d1 id e he
+        cases e with
+        | ghost b => simp [Ent.deleted] at q1
+        | ent d tok loc b del =>
+          simp only [Ent.deleted, Ent.inSync] at q1 q2; subst q1 q2
+          rcases g2.snd.1 id d tok loc he with h | h
+          · exact h.elim
+          · simp [liveSvc, he, Ent.live?, h]
+    · intro k hk
+      cases he : (syncRest cfg ord f s).l.chks.get? k with
+      | none =>
+        rcases g2.tgt.2 trivial k he with h | h
+        · simp [liveChk, he, h]
+        · exact absurd h hk
+      | some e =>
+        obtain ⟨q1, q2⟩ := d2 k e he
+        cases e with
+        | ghost b => simp [Ent.deleted] at q1
+        | ent d tok loc b del =>
+          simp only [Ent.deleted, Ent.inSync] at q1 q2; subst q1 q2
+          rcases g2.snd.2 k d tok loc he with h | ⟨rc, h, hcore⟩
+          · exact h.elim
+          · simp [liveChk, he, Ent.live?, h, hcore]
+  unfold syncChanges
+  by_cases hns : (updateSyncState cfg l c).nodeInSync = true
+  · rw [if_pos hns]
+    apply rest _ g1 _ rfl
+    refine ⟨hns, ?_⟩
+    simp only [updateSyncState] at hns
+    split at hns
+    · assumption
+    · cases hns
+  · rw [if_neg hns]
+    have e1 : (syncNode cfg f ⟨updateSyncState cfg l c, c, true⟩) =
+        (⟨{ (updateSyncState cfg l c) with nodeInSync := true }, { c with node := some cfg.nodeVal }, true⟩, true) := by
+      unfold syncNode; rw [hno]
+    rw [e1]; simp only [if_true]
+    exact rest _ (GInv_node true (some cfg.nodeVal) g1) ⟨rfl, rfl⟩ rfl
+
+/-! ### the counterexample to the full-strength statement (the known finding) -/
+
+def allOk : Faults := ⟨true, true, .ok, fun _ => .ok, fun _ => .ok⟩
+def exCfg : Cfg := ⟨1, "", ""⟩
+def exWeb : SvcDef := ⟨"web", ["a"], false, 80, []⟩
+def exApi : SvcDef := ⟨"api", [], false, 81, []⟩
+
+/-- `web` and its check `c1` were removed locally (both pending), `api` is registered and in sync;
+    behind the agent's back the catalog's `c1` has been bound to `api`. -/
+def cexL : Local :=
+  { nodeInSync := true
+    svcs := [("web", .ent exWeb "" false false true), ("api", .ent exApi "" false true false)]
+    chks := [("c1", .ent ⟨"web", 0, "web", ["a"]⟩ "" false false true)] }
+def cexC : Cat :=
+  { node := some 1, svcs := [("web", exWeb), ("api", exApi)], chks := [("c1", ⟨"api", 0, "api", []⟩)] }
+
+theorem allOk_ok : AllOk allOk := ⟨rfl, rfl, rfl, fun _ => rfl, fun _ => rfl⟩
+
+/-- every RPC succeeds, the full sync reports success, the agent has forgotten `c1` — and the
+    catalog still holds it -/
+theorem clean_full_sync_converges_counterexample :
+    (syncFull exCfg ⟨[], []⟩ allOk cexL cexC).ok = true ∧
+    (syncFull exCfg ⟨[], []⟩ allOk cexL cexC).l.chks.get? "c1" = none ∧
+    (syncFull exCfg ⟨[], []⟩ allOk cexL cexC).c.chks.get? "c1" = some ⟨"api", 0, "api", []⟩ := by
+  decide
+
+theorem counterexample_not_converged : ¬ Converged exCfg cexL (syncFull exCfg ⟨[], []⟩ allOk cexL cexC) := by
+  intro ⟨_, _, _, _, _, _, h⟩
+  obtain ⟨_, h2, h3⟩ := clean_full_sync_converges_counterexample
+  have := h "c1" (by unfold KeptChk; decide)
+  rw [h3] at this
+  simp [liveChk, h2] at this
+
+/-- the witness violates exactly the excluded hypothesis -/
+theorem counterexample_is_rebound : ¬ NoRebound cexL cexC := by
+  intro h
+  have := h "c1" ⟨"web", 0, "web", ["a"]⟩ "" false false ⟨"api", 0, "api", []⟩ (by decide) (by decide) (by decide)
+  revert this; decide
+
+/-! ## 2. syncing never changes what is registered (except server-owned fields) -/
+
+/-- whatever the RPC outcomes, a partial sync leaves the set of registrations and their
+    definitions untouched -/
+theorem sync_changes_keeps_registrations (cfg : Cfg) (ord : Order) (f : Faults) (l : Local) (c : Cat) :
+    (∀ id, liveSvc (syncChanges cfg ord f l c).l id = liveSvc l id) ∧
+    (∀ k, liveChk (syncChanges cfg ord f l c).l k = liveChk l k) := by
+  have fold1 : ∀ (ks : List Id) (s : St), (∀ i, liveSvc (ks.foldl (svcStep cfg f) s).l i = liveSvc s.l i) ∧
+      (∀ k, liveChk (ks.foldl (svcStep cfg f) s).l k = liveChk s.l k) := by
+    intro ks; induction ks with
+    | nil => intro s; exact ⟨fun _ => rfl, fun _ => rfl⟩
+    | cons i ks ih =>
+      intro s; simp only [List.foldl_cons]
+      obtain ⟨a, b⟩ := ih (svcStep cfg f s i); obtain ⟨p, q⟩ := svcStep_live cfg f s i
+      exact ⟨fun j => by rw [a, p], fun k => by rw [b, q]⟩
+  have fold2 : ∀ (ks : List Id) (s : St), (∀ i, liveSvc (ks.foldl (chkStep cfg f) s).l i = liveSvc s.l i) ∧
+      (∀ k, liveChk (ks.foldl (chkStep cfg f) s).l k = liveChk s.l k) := by
+    intro ks; induction ks with
+    | nil => intro s; exact ⟨fun _ => rfl, fun _ => rfl⟩
+    | cons i ks ih =>
+      intro s; simp only [List.foldl_cons]
+      obtain ⟨a, b⟩ := ih (chkStep cfg f s i); obtain ⟨p, q⟩ := chkStep_live cfg f s i
+      exact ⟨fun j => by rw [a, p], fun k => by rw [b, q]⟩
+  have rest : ∀ s : St, (∀ i, liveSvc (syncRest cfg ord f s).l i = liveSvc s.l i) ∧
+      (∀ k, liveChk (syncRest cfg ord f s).l k = liveChk s.l k) := by
+    intro s; unfold syncRest chkLoop svcLoop
+    obtain ⟨a, b⟩ := fold1 (visit ord.svcs s.l.svcs.keys) s
+    obtain ⟨p, q⟩ := fold2 (visit ord.chks (List.foldl (svcStep cfg f) s (visit ord.svcs s.l.svcs.keys)).l.chks.keys)
+      (List.foldl (svcStep cfg f) s (visit ord.svcs s.l.svcs.keys))
+    exact ⟨fun j => by rw [p, a], fun k => by rw [q, b]⟩
+  unfold syncChanges
+  split
+  · exact rest _
+  · obtain ⟨e1, e2, _, _⟩ := syncNode_frame cfg f ⟨l, c, true⟩
+    obtain ⟨q1, q2⟩ := live_congr e1 e2
+    split
+    · obtain ⟨a, b⟩ := rest (syncNode cfg f ⟨l, c, true⟩).1
+      exact ⟨fun j => by rw [a, q1], fun k => by rw [b, q2]⟩
+    · exact ⟨q1, q2⟩
+
+/-- a full sync changes a registered service only by absorbing the fields the servers own
+    (`absorbFrom`: tags under EnableTagOverride, `consul-` tagged addresses); checks not at all -/
+theorem full_sync_keeps_registrations (cfg : Cfg) (ord : Order) (f : Faults) (l : Local) (c : Cat)
+    (hr : f.readSvcs = true ∧ f.readChks = true) :
+    (∀ id, liveSvc (syncFull cfg ord f l c).l id = (liveSvc l id).map (absorbFrom c id)) ∧
+    (∀ k, liveChk (syncFull cfg ord f l c).l k = liveChk l k) := by
+  unfold syncFull; rw [hr.1, hr.2]; simp only [Bool.and_self, if_true]
+  obtain ⟨a, b⟩ := sync_changes_keeps_registrations cfg ord f (updateSyncState cfg l c) c
+  exact ⟨fun id => by rw [a, uss_liveSvc], fun k => by rw [b, uss_liveChk]⟩
+
+/-- what `absorb` may touch: never the name, port or the override switch; the tags only under
+    EnableTagOverride -/
+theorem absorb_server_owned (d rs : SvcDef) :
+    (absorb d rs).name = d.name ∧ (absorb d rs).port = d.port ∧ (absorb d rs).eto = d.eto ∧
+    (d.eto = false → (absorb d rs).tags = d.tags) := by
+  unfold absorb
+  simp only
+  split <;> split <;> simp_all
+
+/-! ## 3. soundness of the in-sync marks -/
+
+/-- Sync steps keep the marks sound for every pattern of RPC outcomes and every order: an entry
+    marked in sync is held by the catalog unless it is in the refused set, and the refused set
+    only has to contain what this sync's ACL refusals cover. -/
+theorem sync_preserves_sound (cfg : Cfg) (ord : Order) (f : Faults) (l : Local) (c : Cat) (Rs Rc : Id → Prop)
+    (hw : WF l c) (hcov : Covers f l Rs Rc) (hs : SoundExcept Rs Rc l c) :
+    SoundExcept Rs Rc (syncChanges cfg ord f l c).l (syncChanges cfg ord f l c).c := by
+  have g : GInv False Rs Rc (fun _ => True) (fun _ => True) l c :=
+    ⟨hw.1, hw.2.1, hw.2.2, fun h => h.elim, hs, ⟨fun _ _ => Or.inr trivial, fun h => h.elim⟩⟩
+  exact (syncChanges_GInv cfg ord f l c hcov g).1.snd
+
+/-- A full sync needs no assumption on the old marks at all: `updateSyncState` recomputes every
+    mark from the catalog, so afterwards only this sync's refusals can be unsound. -/
+theorem full_sync_sound (cfg : Cfg) (ord : Order) (f : Faults) (l : Local) (c : Cat) (Rs Rc : Id → Prop)
+    (hw : WF l c) (hr : f.readSvcs = true ∧ f.readChks = true) (hcov : Covers f l Rs Rc) :
+    SoundExcept Rs Rc (syncFull cfg ord f l c).l (syncFull cfg ord f l c).c := by
+  unfold syncFull; rw [hr.1, hr.2]; simp only [Bool.and_self, if_true]
+  have g : GInv False Rs Rc (KeptSvc l) (KeptChk l) (updateSyncState cfg l c) c :=
+    uss_GInv cfg l c hw.1 hw.2.1 hw.2.2 (fun h => h.elim)
+  have hcov' : Covers f (updateSyncState cfg l c) Rs Rc :=
+    ⟨hcov.svc, hcov.chk, fun k d h => hcov.rid k d (by rw [← uss_liveChk cfg l c k]; exact h)⟩
+  exact (syncChanges_GInv cfg ord f _ c hcov' g).1.snd
+
+/-- entries refused by ACLs are retried at every full sync: after the read phase a mark is on only
+    if the catalog holds exactly that definition, so an entry the catalog lacks is out of sync
+    again whatever was marked before -/
+theorem denied_retried_each_full_sync (cfg : Cfg) (l : Local) (c : Cat) :
+    (∀ id e, (updateSyncState cfg l c).svcs.get? id = some e → c.svcs.get? id = none → e.inSync = false) ∧
+    (∀ k e, (updateSyncState cfg l c).chks.get? k = some e → c.chks.get? k = none → e.inSync = false) ∧
+    (∀ id d tok loc, (updateSyncState cfg l c).svcs.get? id = some (.ent d tok loc true false) → c.svcs.get? id = some d) ∧
+    (∀ k d tok loc, (updateSyncState cfg l c).chks.get? k = some (.ent d tok loc true false) → c.chks.get? k = some d) := by
+  refine ⟨?_, ?_, uss_sound_svc cfg l c, uss_sound_chk cfg l c⟩
+  · intro id e h hc
+    rw [uss_svcs] at h
+    cases hl : l.svcs.get? id with
+    | none => rw [hl] at h; simp [hc] at h
+    | some e0 => rw [hl] at h; simp only [Option.some.injEq] at h; subst h; simp [usSvc, hc]
+  · intro k e h hc
+    rw [uss_chks] at h
+    cases hl : l.chks.get? k with
+    | none => rw [hl] at h; simp [hc] at h
+    | some e0 => rw [hl] at h; simp only [Option.some.injEq] at h; subst h; simp [usChk, hc]
+
+/-! ## 4. a failing RPC never marks anything -/
+
+/-- the record of a service whose RPC fails (with or without the write having been applied) comes
+    out of `SyncChanges` exactly as it went in -/
+theorem failure_never_marks_service (cfg : Cfg) (ord : Order) (f : Faults) (l : Local) (c : Cat) (id : Id)
+    (h : Failed (f.svc id)) : (syncChanges cfg ord f l c).l.svcs.get? id = l.svcs.get? id := by
+  have rest : ∀ s : St, (syncRest cfg ord f s).l.svcs.get? id = s.l.svcs.get? id := by
+    intro s; unfold syncRest chkLoop svcLoop
+    rw [chkFold_svcs, fold_svcs_failed cfg f id h]
+  unfold syncChanges
+  split
+  · exact rest _
+  · obtain ⟨e1, _, _, _⟩ := syncNode_frame cfg f ⟨l, c, true⟩
+    split
+    · rw [rest, e1]
+    · rw [e1]
+
+/-- the record of a check whose own RPC fails, and whose service's RPC (on which it could ride,
+    or which could prune it) fails too, comes out of `SyncChanges` exactly as it went in -/
+theorem failure_never_marks_check (cfg : Cfg) (ord : Order) (f : Faults) (l : Local) (c : Cat) (k : Id) (e : Ent ChkDef)
+    (he : l.chks.get? k = some e) (h : Failed (f.chk k))
+    (hs : ∀ d tok loc b del, e = .ent d tok loc b del → Failed (f.svc d.sid)) :
+    (syncChanges cfg ord f l c).l.chks.get? k = some e := by
+  have rest : ∀ s : St, s.l.chks.get? k = some e → (syncRest cfg ord f s).l.chks.get? k = some e := by
+    intro s hk; unfold syncRest chkLoop svcLoop
+    rw [chkFold_chk_failed cfg f k h]
+    exact svcFold_chk_failed cfg f k e hs _ s hk
+  unfold syncChanges
+  split
+  · exact rest _ he
+  · obtain ⟨_, e2, _, _⟩ := syncNode_frame cfg f ⟨l, c, true⟩
+    split
+    · exact rest _ (by rw [e2]; exact he)
+    · rw [e2]; exact he
+
+/-! ## 5. local deregistrations are never forgotten -/
+
+/-- Services, full strength: a service pending removal that `SyncChanges` no longer remembers is
+    gone from the catalog — for every fault pattern and order. -/
+theorem deletions_not_forgotten_service (cfg : Cfg) (ord : Order) (f : Faults) (l : Local) (c : Cat)
+    (hw : WF l c) (id : Id) (e : Ent SvcDef) (he : l.svcs.get? id = some e) (hd : e.deleted = true) :
+    (∃ e', (syncChanges cfg ord f l c).l.svcs.get? id = some e' ∧ e'.deleted = true) ∨
+    (syncChanges cfg ord f l c).c.svcs.get? id = none := by
+  have g : GInv False (fun _ => True) (fun _ => True) (fun i => l.svcs.get? i = none) (fun _ => True) l c :=
+    ⟨hw.1, hw.2.1, hw.2.2, fun h => h.elim, ⟨fun _ _ _ _ _ => Or.inl trivial, fun _ _ _ _ _ => Or.inl trivial⟩,
+     ⟨fun i h => Or.inr h, fun h => h.elim⟩⟩
+  obtain ⟨g', _, hlive⟩ := syncChanges_GInv cfg ord f l c ⟨fun _ _ => trivial, fun _ _ => trivial, fun _ _ _ _ => trivial⟩ g
+  cases hr : (syncChanges cfg ord f l c).l.svcs.get? id with
+  | none =>
+    rcases g'.tgt.1 id hr with h | h
+    · exact Or.inr h
+    · rw [he] at h; cases h
+  | some e' =>
+    left; refine ⟨e', rfl, deleted_of_not_live e' ?_⟩
+    have := hlive id
+    simp only [liveSvc, hr, he, Option.bind_some] at this
+    rw [this]; exact live?_deleted e hd
+
+/- Checks, full-strength statement (FALSE, same finding as in §1):
+     theorem deletions_not_forgotten_check : WF l c → l.chks.get? k = some e → e.deleted →
+        still pending ∨ (syncChanges …).c.chks.get? k = none -/
+
+theorem deletions_not_forgotten_check_partial (cfg : Cfg) (ord : Order) (f : Faults) (l : Local) (c : Cat)
+    (hw : WF l c) (hnr : NoRebound l c) (k : Id) (e : Ent ChkDef) (he : l.chks.get? k = some e) (hd : e.deleted = true) :
+    (∃ e', (syncChanges cfg ord f l c).l.chks.get? k = some e' ∧ e'.deleted = true) ∨
+    (syncChanges cfg ord f l c).c.chks.get? k = none := by
+  have g : GInv True (fun _ => True) (fun _ => True) (fun _ => True) (fun i => l.chks.get? i = none) l c :=
+    ⟨hw.1, hw.2.1, hw.2.2, fun _ => hnr, ⟨fun _ _ _ _ _ => Or.inl trivial, fun _ _ _ _ _ => Or.inl trivial⟩,
+     ⟨fun i h => Or.inr trivial, fun _ i h => Or.inr h⟩⟩
+  obtain ⟨g', hlive, _⟩ := syncChanges_GInv cfg ord f l c ⟨fun _ _ => trivial, fun _ _ => trivial, fun _ _ _ _ => trivial⟩ g
+  cases hr : (syncChanges cfg ord f l c).l.chks.get? k with
+  | none =>
+    rcases g'.tgt.2 trivial k hr with h | h
+    · exact Or.inr h
+    · rw [he] at h; cases h
+  | some e' =>
+    left; refine ⟨e', rfl, deleted_of_not_live e' ?_⟩
+    have := hlive k
+    simp only [liveChk, hr, he, Option.bind_some] at this
+    rw [this]; exact live?_deleted e hd
+
+/-- the same witness as in §1, as a partial sync: the pending removal of `c1` is dropped while
+    the catalog holds `c1` -/
+theorem deletions_not_forgotten_check_counterexample :
+    cexL.chks.get? "c1" = some (.ent ⟨"web", 0, "web", ["a"]⟩ "" false false true) ∧
+    (syncChanges exCfg ⟨[], []⟩ allOk cexL cexC).l.chks.get? "c1" = none ∧
+    (syncChanges exCfg ⟨[], []⟩ allOk cexL cexC).c.chks.get? "c1" ≠ none := by
+  decide
+
+/-! ## 6. repair after failure -/
+
+/-- the standing assumptions survive any sync, whatever fails -/
+theorem sync_full_preserves_wf (cfg : Cfg) (ord : Order) (f : Faults) (l : Local) (c : Cat)
+    (hw : WF l c) (hnr : NoRebound l c) :
+    WF (syncFull cfg ord f l c).l (syncFull cfg ord f l c).c ∧
+    NoRebound (syncFull cfg ord f l c).l (syncFull cfg ord f l c).c := by
+  unfold syncFull
+  split
+  · have g : GInv True (fun _ => True) (fun _ => True) (KeptSvc l) (KeptChk l) (updateSyncState cfg l c) c :=
+      uss_GInv cfg l c hw.1 hw.2.1 hw.2.2 (fun _ => hnr)
+    obtain ⟨g', _, _⟩ := syncChanges_GInv cfg ord f _ c ⟨fun _ _ => trivial, fun _ _ => trivial, fun _ _ _ _ => trivial⟩ g
+    exact ⟨⟨g'.lwf, g'.cwf, g'.nek⟩, g'.nrb trivial⟩
+  · exact ⟨hw, hnr⟩
+
+/-- Whatever went wrong in a full sync (`f₁`, any order), the next full sync whose RPCs succeed
+    converges. -/
+theorem repair_after_failure (cfg : Cfg) (ord₁ ord₂ : Order) (f₁ f₂ : Faults) (l : Local) (c : Cat)
+    (hw : WF l c) (hnr : NoRebound l c) (hf : AllOk f₂) :
+    Converged cfg (syncFull cfg ord₁ f₁ l c).l
+      (syncFull cfg ord₂ f₂ (syncFull cfg ord₁ f₁ l c).l (syncFull cfg ord₁ f₁ l c).c) := by
+  obtain ⟨hw', hnr'⟩ := sync_full_preserves_wf cfg ord₁ f₁ l c hw hnr
+  exact clean_full_sync_converges_partial cfg ord₂ f₂ _ _ hf hw' hnr'
+
+/-! ## 7. the scheduler (agent/ae): a failed full sync is retried as a full sync -/
+
+theorem ae_failed_full_sync_goes_to_retry (ev : AeEvent) :
+    aeNext .fullSync false ev false = some (.runFull, .retryFullSync) := rfl
+
+/-- while a full sync is owed, no partial sync runs; the only ways out are a full sync or shutdown -/
+theorem ae_retry_runs_no_partial (paused : Bool) (ev : AeEvent) (ok : Bool) (a : AeAct) (n : AeState)
+    (h : aeNext .retryFullSync paused ev ok = some (a, n)) : a = .idle ∧ (n = .fullSync ∨ n = .done) := by
+  cases ev <;> simp [aeNext] at h <;> obtain ⟨rfl, rfl⟩ := h <;> simp
+
+/-! ## non-vacuity -/
+
+/-- the counterexample state meets the standing assumptions (so it is the `NoRebound` hypothesis,
+    and nothing else, that excludes it) -/
+theorem cex_wf : WF cexL cexC := by
+  refine ⟨?_, ?_, by unfold NoEmptyKey; decide⟩
+  · intro k d h _
+    simp only [liveChk, cexL, get?] at h
+    split at h <;> simp [Ent.live?] at h
+  · intro k rc h hs
+    simp only [cexC, get?] at h
+    split at h
+    · simp only [Option.some.injEq] at h; subst h; decide
+    · cases h
+
+/-- a state that meets every hypothesis of the convergence theorem, with real work to do:
+    `web` changed locally, its check `c1` new, `db` only in the catalog (to be removed), the
+    `consul` service left alone -/
+def okL : Local :=
+  { nodeInSync := false
+    svcs := [("web", .ent exWeb "t1" false false false)]
+    chks := [("c1", .ent ⟨"web", 2, "web", ["a"]⟩ "t1" false false false)] }
+def okC : Cat :=
+  { node := none
+    svcs := [("web", { exWeb with port := 81 }), ("db", ⟨"db", [], false, 5432, []⟩), ("consul", ⟨"consul", [], false, 8300, []⟩)]
+    chks := [("c9", ⟨"db", 0, "db", []⟩)] }
+
+theorem ok_wf : WF okL okC := by
+  refine ⟨?_, ?_, by unfold NoEmptyKey; decide⟩
+  · intro k d h hs
+    simp only [liveChk, okL, get?] at h
+    split at h
+    · simp only [Option.bind_some, Ent.live?, Option.some.injEq] at h; subst h; decide
+    · simp at h
+  · intro k rc h hs
+    simp only [okC, get?] at h
+    split at h
+    · simp only [Option.some.injEq] at h; subst h; decide
+    · cases h
+
+theorem ok_norebound : NoRebound okL okC := by
+  intro k d tok loc b rc h
+  simp only [okL, get?] at h
+  split at h <;> simp at h
+
+example : Converged exCfg okL (syncFull exCfg ⟨["web"], []⟩ allOk okL okC) :=
+  clean_full_sync_converges_partial _ _ _ _ _ allOk_ok ok_wf ok_norebound
+
+-- executable sanity checks of the same run (tests, not theorems)
+#guard (syncFull exCfg ⟨["web"], []⟩ allOk okL okC).c.svcs.get? "db" == none
+#guard (syncFull exCfg ⟨["web"], []⟩ allOk okL okC).c.svcs.get? "web" == some exWeb
+#guard (syncFull exCfg ⟨["web"], []⟩ allOk okL okC).c.svcs.get? "consul" == some ⟨"consul", [], false, 8300, []⟩
+#guard (syncFull exCfg ⟨["web"], []⟩ allOk okL okC).c.chks.get? "c9" == none
+#guard ((syncFull exCfg ⟨["web"], []⟩ allOk okL okC).c.chks.get? "c1").map ChkDef.core == some ("web", 2)
+
 end CV.AE
